@@ -59,6 +59,16 @@ def instances(tier):
                     for kind, opts in planners(tier, prefix):
                         out.append({"name": f"{kind}-{opts.get('goal', '')}-{shape}-w{''.join(map(str, ws))}-{sk}-{prefix}-d{opts.get('time_discretization', '')}", "kind": kind,
                                     "opts": opts, "inst": inst})
+    # a source task that fits on no worker at all (its children do): nothing below it may be placed
+    for shape in ["chain2", "fork", "join"] + (["chain3", "skipdiamond"] if tier == "thorough" else []):
+        names, edges = SHAPES[shape]
+        srcs = [n for n in names if not any(b == n for a, b in edges)]
+        for ws in ([[1], [2, 1]] if tier == "quick" else [[1], [2], [2, 1]]):
+            tasks = {n: {"strategies": [[3 + i % 2, 1]], "deadline": 14} for i, n in enumerate(names)}
+            tasks[srcs[0]]["strategies"] = [[3, max(ws) + 1]]
+            inst = {"now": 0, "workers": ws, "graphs": [{"name": "G", "tasks": names, "edges": [list(e) for e in edges]}], "tasks": tasks}
+            for kind, opts in planners(tier, "whole"):
+                out.append({"name": f"{kind}-{opts.get('goal', '')}-{shape}-w{''.join(map(str, ws))}-source-fits-nowhere-d{opts.get('time_discretization', '')}", "kind": kind, "opts": opts, "inst": inst})
     return out
 
 
